@@ -58,6 +58,13 @@ func CompileExpression(node Node) CompiledExpression {
 			args[i] = CompileExpression(arg)
 		}
 		return func(data interface{}) (interface{}, error) {
+			if (n.Name == "EXISTS" || n.Name == "DOES_NOT_EXIST") && len(n.Arguments) == 1 {
+				// A field path exists when every step of it is present in the
+				// document, whatever the value stored there (including null).
+				if _, present, isPath := resolvePath(n.Arguments[0], data); isPath {
+					return present == (n.Name == "EXISTS"), nil
+				}
+			}
 			if n.Name == "DOES_NOT_EXIST" {
 				if len(n.Arguments) != 1 {
 					return nil, fmt.Errorf("DOES_NOT_EXIST function requires exactly one argument")
@@ -164,6 +171,69 @@ func CompileExpression(node Node) CompiledExpression {
 			return nil, fmt.Errorf("unsupported node type: %T", n)
 		}
 	}
+}
+
+// resolvePath looks up a field path (an identifier, a.b, a[i] and combinations
+// of these) in data. isPath is false when node is not such a path.
+func resolvePath(node Node, data interface{}) (value interface{}, present bool, isPath bool) {
+	switch n := node.(type) {
+	case *IdentifierNode:
+		m, ok := data.(map[string]interface{})
+		if !ok {
+			return nil, false, true
+		}
+		v, exists := m[n.Name]
+		return v, exists, true
+	case *ExpressionNode:
+		switch n.Operator {
+		case ".":
+			ident, ok := n.Right.(*IdentifierNode)
+			if !ok {
+				return nil, false, false
+			}
+			lv, present, isPath := resolvePath(n.Left, data)
+			if !isPath || !present {
+				return nil, false, isPath
+			}
+			switch l := lv.(type) {
+			case map[string]interface{}:
+				v, exists := l[ident.Name]
+				return v, exists, true
+			case []interface{}:
+				if ident.Name == "length" {
+					return float64(len(l)), true, true
+				}
+			case string:
+				if ident.Name == "length" {
+					return float64(len(l)), true, true
+				}
+			}
+			return nil, false, true
+		case "[]":
+			lv, present, isPath := resolvePath(n.Left, data)
+			if !isPath || !present {
+				return nil, false, isPath
+			}
+			arr, ok := lv.([]interface{})
+			if !ok {
+				return nil, false, true
+			}
+			idx, err := CompileExpression(n.Right)(data)
+			if err != nil {
+				return nil, false, true
+			}
+			f, err := toFloat64(idx)
+			if err != nil {
+				return nil, false, true
+			}
+			i := int(math.Round(f))
+			if i < 0 || i >= len(arr) {
+				return nil, false, true
+			}
+			return arr[i], true, true
+		}
+	}
+	return nil, false, false
 }
 
 func evaluateOperation(operator string, left, right interface{}) (interface{}, error) {
